@@ -537,7 +537,7 @@ impl MarkerExpression {
                     "Unexpected character '{unexpected}', expected end of input"
                 )),
                 start: pos,
-                len: chars.remaining(),
+                len: chars.remaining_len_from(pos),
                 input: chars.to_string(),
             });
         }
